@@ -20,3 +20,157 @@ package system
 //@ iface system.Conn.WriteTo(self, m, cm, dst) (err)
 //@   assigns ghost.writes, ghost.lastWriteDst, ghost.lastWriteMsg
 //@   ensures W1: ghost.writes == old(ghost.writes) + 1 && ghost.lastWriteDst == dst && ghost.lastWriteMsg == m
+
+// ---------------------------------------------------------------------------
+// dialer.go (C10 recovery policy, C11 resource discipline)
+
+//@ ghost var openConns Int
+//@ ghost var acHeld Bool
+//@ ghost var acPrev Bool
+//@ ghost var autoconf (Array Int Bool)
+//@ ghost var restores Int
+
+//@ macro isSyscallErr(e) = errAs(e, "*os.SyscallError")
+//@ macro isPermSyscall(e) = isSyscallErr(e) && errIs(errAsVal(e, "*os.SyscallError"), global("os.ErrPermission"))
+//@ macro linkErr(e) = errIs(e, ErrLinkNotReady) || errIs(e, ErrLinkChange)
+// C10: permission denied on a system call is fatal; any other system call
+// error, link-not-ready and link-change are recoverable; everything else is fatal.
+//@ macro fatalErr(e) = isPermSyscall(e) || !(isSyscallErr(e) || linkErr(e))
+
+//@ func (*Dialer).logf
+//@   opt trusted logging
+//@ func panicf
+//@   requires UNREACHABLE: false
+//@   opt trusted panics
+//@ func lookupInterface
+//@   ensures R1: result1 == nil ==> result0 != nil
+//@   opt trusted reads operating-system state only
+//@ func checkInterface
+//@   opt trusted reads operating-system state only
+
+// What Dial may assume about DialFunc (dial refines it; tests may substitute it).
+//@ funcfield system.Dialer.DialFunc() (dctx, err)
+//@   requires P1: ghost.openConns == 0 && !ghost.acHeld
+//@   assigns ghost.openConns, ghost.acHeld, ghost.acPrev, ghost.autoconf, new heap(system.DialContext)
+//@   ensures D1: err == nil ==> dctx != nil && dctx.done != nil && ghost.openConns == 1
+//@   ensures D2: err != nil ==> ghost.openConns == 0 && !ghost.acHeld && ghost.autoconf == old(ghost.autoconf)
+
+// The clean-up function stored in DialContext.done.
+//@ funcfield system.DialContext.done() (err)
+//@   requires P1: ghost.openConns == 1
+//@   assigns ghost.openConns, ghost.acHeld, ghost.autoconf, ghost.restores
+//@   ensures C1: ghost.openConns == 0 && !ghost.acHeld
+
+// The restore function returned by setAutoconf.
+//@ funcparam system.restoreFn() (err)
+//@   requires P1: ghost.acHeld
+//@   assigns ghost.acHeld, ghost.autoconf, ghost.restores
+//@   ensures R1: !ghost.acHeld && ghost.restores == old(ghost.restores) + 1
+//@ funcparam system.(*Dialer).dial$1.restore() (err)
+//@   opt same funcparam:system.restoreFn
+
+//@ iface system.State.IPv6Autoconf(self, iface) (v, err)
+//@   ensures A1: err == nil ==> v == autoconfOf(ghost.autoconf, iface)
+//@ iface system.State.SetIPv6Autoconf(self, iface, enable) (err)
+//@   assigns ghost.autoconf
+//@   ensures S1: err == nil ==> ghost.autoconf == setAutoconfOf(old(ghost.autoconf), iface, enable)
+//@   ensures S2: err != nil ==> ghost.autoconf == old(ghost.autoconf)
+//@ iface system.State.IPv6Forwarding(self, iface) (v, err)
+
+//@ lib (*github.com/mdlayher/ndp.Conn).Close(c) (err)
+//@   assigns ghost.openConns
+//@   ensures C1: ghost.openConns == old(ghost.openConns) - 1
+//@ lib (*github.com/mdlayher/ndp.Conn).LeaveGroup(c, g) (err)
+//@ lib (*github.com/mdlayher/ndp.Conn).JoinGroup(c, g) (err)
+//@ lib (*github.com/mdlayher/ndp.Conn).SetICMPFilter(c, f) (err)
+//@ lib (*github.com/mdlayher/ndp.Conn).SetControlMessage(c, cf, on) (err)
+//@ lib (*golang.org/x/net/ipv6.ICMPFilter).SetAll(f, block)
+//@   assigns heap(ipv6.ICMPFilter) at f
+//@ lib (*golang.org/x/net/ipv6.ICMPFilter).Accept(f, typ)
+//@   assigns heap(ipv6.ICMPFilter) at f
+//@ lib github.com/mdlayher/ndp.Listen(ifi, addr) (c, ip, err)
+//@   assigns ghost.openConns
+//@   ensures L1: err == nil ==> c != nil && ghost.openConns == old(ghost.openConns) + 1
+//@   ensures L2: err != nil ==> ghost.openConns == old(ghost.openConns)
+
+//@ func dialNDP
+//@   requires P1: ifi != nil
+//@   assigns ghost.openConns
+//@   ensures E1 [C11]: result2 == nil ==> result0 != nil && ghost.openConns == old(ghost.openConns) + 1
+//@   ensures E2 [C11]: result2 != nil ==> ghost.openConns == old(ghost.openConns)
+//@   opt safety [C11]
+
+//@ func (*Dialer).setAutoconf
+//@   requires P1: d.state != nil && !ghost.acHeld
+//@   assigns ghost.acHeld, ghost.acPrev, ghost.autoconf
+//@   at call IPv6Autoconf(iface) (v, err): assert G1 [C11]: iface == d.iface ; ghost.acPrev = v
+//@   at call SetIPv6Autoconf(iface, enable): assert G2 [C11]: iface == d.iface && enable == false && ghost.acPrev == autoconfOf(ghost.autoconf, d.iface)
+//@   at call SetIPv6Autoconf(iface, enable) (serr): ghost.acHeld = (serr == nil || errIs(serr, global("os.ErrPermission")))
+//@   ensures E1 [C11]: result1 == nil ==> result0 != nil && ghost.acHeld && ghost.acPrev == autoconfOf(old(ghost.autoconf), d.iface)
+//@   ensures E2 [C11]: result1 != nil ==> result0 == nil && ghost.autoconf == old(ghost.autoconf)
+//@   ensures E3 [C11]: result1 == nil ==> !autoconfOf(ghost.autoconf, d.iface) || ghost.autoconf == old(ghost.autoconf)
+//@   ensures E4 [C11]: result1 != nil ==> !ghost.acHeld
+//@   opt safety [C11]
+
+//@ func (*Dialer).setAutoconf$1
+//@   opt refines funcparam:system.restoreFn
+//@   opt refinetags [C11]
+//@   opt capture PREV
+//@   requires PREV [C11]: prev == ghost.acPrev && d != nil && d.state != nil
+//@   assigns ghost.acHeld, ghost.autoconf, ghost.restores
+//@   at call SetIPv6Autoconf(iface, v) (serr): assert A1 [C11]: iface == d.iface && v == ghost.acPrev ; ghost.restores = ghost.restores + 1 ; ghost.acHeld = false
+//@   ensures T1 [C11]: (result == nil) == (err == nil || errIs(err, global("os.ErrPermission")) || errIs(err, global("os.ErrNotExist")))
+//@   ensures T2 [C11]: err == nil ==> autoconfOf(ghost.autoconf, d.iface) == ghost.acPrev
+//@   opt safety [C11]
+
+//@ func (*Dialer).dial$1
+//@   opt refines funcfield:system.DialContext.done
+//@   opt refinetags [C11]
+//@   opt capture CAP
+//@   requires CAP [C11]: conn != nil && d != nil && (restore != nil) == ghost.acHeld
+//@   assigns ghost.openConns, ghost.acHeld, ghost.autoconf, ghost.restores
+//@   opt safety [C11]
+
+//@ func (*Dialer).dial
+//@   opt refines funcfield:system.Dialer.DialFunc
+//@   opt refinetags [C11]
+//@   opt capture P0
+//@   requires P0: d.state != nil
+//@   assigns ghost.openConns, ghost.acHeld, ghost.acPrev, ghost.autoconf, new heap(system.DialContext)
+//@   ensures E1 [C11]: result1 == nil ==> ghost.acHeld == (d.mode == 1)
+//@   opt safety [C11]
+
+//@ func (*Dialer).init
+//@   ghost local attempts Int
+//@   requires P0: ctx != nil && d.DialFunc != nil
+//@   requires P1: ghost.openConns == 0 && !ghost.acHeld
+//@   assigns ghost.openConns, ghost.acHeld, ghost.acPrev, ghost.autoconf, ghost.done, ghost.now, new heap(system.DialContext)
+//@   at call DialFunc(): ghost.attempts = ghost.attempts + 1
+//@   at call time.After(w): assert W1 [C10]: w == imin(ms(250) * i, secs(3))
+//@   loop 1 invariant I1 [C10]: 0 <= i && i <= 50 && delay == imin(ms(250) * i, secs(3)) && ghost.attempts == ite(old(err) == nil, 1, 0) + i
+//@   loop 1 invariant I2 [C11]: ghost.openConns == 0 && !ghost.acHeld
+//@   loop 1 invariant I3 [C10]: err != nil && !fatalErr(err)
+//@   ensures F1 [C10]: err != nil && fatalErr(err) ==> result1 == err && ghost.attempts <= 1
+//@   ensures F2 [C10]: result1 != nil ==> (fatalErr(err) && result1 == err) || isCanceledErr(result1) || ghost.attempts >= 50
+//@   ensures F3 [C10]: ghost.attempts <= 51
+//@   ensures F4 [C10]: result1 == nil ==> ghost.attempts >= 1
+//@   ensures O1 [C11]: result1 == nil ==> result0 != nil && result0.done != nil && ghost.openConns == 1
+//@   ensures O2 [C11]: result1 != nil ==> ghost.openConns == 0 && !ghost.acHeld
+//@   opt safety [C10,C11]
+
+//@ funcparam system.(*Dialer).Dial.fn(fctx, dctx) (err)
+//@   assigns everything
+//@   opt preserves ghost.openConns, ghost.acHeld, ghost.acPrev, heap(system.DialContext), heap(system.Dialer)
+
+//@ func (*Dialer).Dial
+//@   ghost local lastInit Iface
+//@   requires P0: ctx != nil && fn != nil && d.DialFunc != nil
+//@   requires P1: ghost.openConns == 0 && !ghost.acHeld
+//@   assigns everything
+//@   loop 1 invariant L1 [C11]: ghost.openConns == 0 && !ghost.acHeld
+//@   at call init(dd, ictx, ierr) (idctx, ires): ghost.lastInit = ires
+//@   at call fn(fctx, fdctx): assert H1 [C11]: ghost.openConns == 1 && fdctx != nil
+//@   ensures E1 [C11]: ghost.openConns == 0 && !ghost.acHeld
+//@   ensures E2 [C10]: ghost.lastInit != nil && errIs(ghost.lastInit, global("context.Canceled")) ==> result == nil
+//@   ensures E3 [C10]: ghost.lastInit != nil && !errIs(ghost.lastInit, global("context.Canceled")) ==> result != nil && errIs(result, ghost.lastInit)
+//@   opt safety [C10,C11]
